@@ -296,3 +296,27 @@ func (p *LookupPP) PostProcessBeforeInitialization(c any, name string) (any, err
 	p.look("before", name)
 	return c, nil
 }
+
+// RelaxPP is a user post-processor in the style of unittest/component/modified_inject: it declares the
+// points of its own tag optional at run time through Property.SetArg.
+type RelaxPP struct {
+	processors.DefaultInstantiationAwareComponentPostProcessor
+	Tag     string
+	Relaxed int
+}
+
+func (p *RelaxPP) Naming() string { return "verif.relaxpp" }
+func (p *RelaxPP) Order() int     { return -1000 } // ahead of the built-in processors that enforce "required"
+func (p *RelaxPP) Priority()      {}
+func (p *RelaxPP) PostProcessAfterInstantiation(c any, name string) (bool, error) {
+	return true, nil
+}
+func (p *RelaxPP) PostProcessProperties(props []*component_definition.Property, c any, name string) ([]*component_definition.Property, error) {
+	for _, pr := range props {
+		if pr.Tag == p.Tag {
+			pr.SetArg(component_definition.ArgRequired, "false")
+			p.Relaxed++
+		}
+	}
+	return nil, nil
+}
